@@ -17,7 +17,7 @@ Init == l \in 1..Len(Rec) /\ done = 0
 Once == done = 0 /\ done' = 1 /\ l' = l
 
 \* a rejected event is printed and the invariant stays TRUE: the orchestrator collects the lines
-Report(tag, why) == PrintT(<<tag, l, why>>)
+Report(tag, why) == PrintT("@@" \o tag \o "|" \o ToString(l) \o "|" \o why)
 
 ----------------------------------------------------------------------------
 (* C01: totality *)
@@ -71,7 +71,7 @@ NextC01 == Once /\ C01(Rec[l])
 C02(e) ==
        IF e.k # "parse" \/ ~e.logged THEN TRUE     \* bytes of very large random inputs are not logged
        ELSE LET w == WhyNot(e.pkt) IN
-            /\ PrintT(<<"CLAUSE", l, w>>)
+            /\ PrintT("@@CLAUSE|" \o ToString(l) \o "|" \o w)
             /\ IF e.res \notin {"ok", "err"} \/ (e.res = "ok") = (w = "") THEN TRUE
                ELSE Report("VIOLATION-C02", IF w = "" THEN "rejected a well-formed packet: " \o e.err
                                             ELSE "accepted a packet that violates: " \o w)
